@@ -9,8 +9,8 @@ Import ListNotations.
 Local Open Scope N_scope.
 
 (* ================= the registry loop visits the segments one after the other ================= *)
-Definition seg_events (g : list test) : list ev :=
-  match g with t :: _ => EGroupStart t :: flat_map test_events g ++ [EGroupEnd] | [] => [] end.
+Definition seg_events (fs : list bytes) (g : list test) : list ev :=
+  match g with t :: _ => EGroupStart t :: flat_map (sel_events fs) g ++ [EGroupEnd] | [] => [] end.
 
 Lemma segments_head n rest : exists g gs, segments (n :: rest) = (n :: g) :: gs.
 Proof.
@@ -19,9 +19,9 @@ Proof.
   - exists [], []. reflexivity.
   - destruct (bytes_eqb (t_group n) (t_group m)); eauto.
 Qed.
-Lemma reg_loop_flag t rest : reg_loop true (t :: rest) = EGroupStart t :: reg_loop false (t :: rest).
+Lemma reg_loop_flag fs t rest : reg_loop_sel fs true (t :: rest) = EGroupStart t :: reg_loop_sel fs false (t :: rest).
 Proof. reflexivity. Qed.
-Lemma reg_loop_segments ts : reg_loop true ts = flat_map seg_events (segments ts).
+Lemma reg_loop_segments fs ts : reg_loop_sel fs true ts = flat_map (seg_events fs) (segments ts).
 Proof.
   induction ts as [|t rest IH]; [reflexivity|].
   destruct rest as [|n rest'].
@@ -29,10 +29,10 @@ Proof.
   - destruct (segments_head n rest') as [g [gs Eg]].
     remember (n :: rest') as r eqn:Er.
     cbn [segments]. rewrite Eg in *.
-    assert (IH' : reg_loop false r = flat_map test_events (n :: g) ++ [EGroupEnd] ++ flat_map seg_events gs).
-    { rewrite Er in *. rewrite reg_loop_flag in IH. remember (reg_loop false (n :: rest')) as X eqn:EX.
+    assert (IH' : reg_loop_sel fs false r = flat_map (sel_events fs) (n :: g) ++ [EGroupEnd] ++ flat_map (seg_events fs) gs).
+    { rewrite Er in *. rewrite reg_loop_flag in IH. remember (reg_loop_sel fs false (n :: rest')) as X eqn:EX.
       cbn [flat_map seg_events app] in IH. injection IH as IH. rewrite IH. cbn [flat_map]. rewrite <- !app_assoc. reflexivity. }
-    cbn [reg_loop]. replace (end_of_group t r) with (negb (bytes_eqb (t_group t) (t_group n))) by (rewrite Er; reflexivity).
+    cbn [reg_loop_sel]. replace (end_of_group t r) with (negb (bytes_eqb (t_group t) (t_group n))) by (rewrite Er; reflexivity).
     destruct (bytes_eqb (t_group t) (t_group n)); cbn [negb].
     + rewrite IH'. cbn [flat_map seg_events app]. rewrite <- !app_assoc. reflexivity.
     + rewrite IH. cbn [flat_map seg_events app]. rewrite !app_nil_r, <- !app_assoc. reflexivity.
@@ -56,6 +56,7 @@ Qed.
 (* ================= the writer's output for the callbacks of one test, one segment, a whole run ================= *)
 Section WriterFacts.
 Variable dur : N.
+Variable fs : list bytes.
 Notation stepR := (tc_step Esc true dur).
 Notation itemsR := (tc_items Esc true dur).
 
@@ -100,19 +101,22 @@ Qed.
 
 Lemma items_tests g : forall st rest, exists st',
   c_group st' = c_group st /\ c_open st' = c_open st /\
-  itemsR st (flat_map test_events g ++ rest) = flat_map test_items g ++ itemsR st' rest.
+  itemsR st (flat_map (sel_events fs) g ++ rest) = flat_map test_items (filter (selected fs) g) ++ itemsR st' rest.
 Proof.
   induction g as [|t g IH]; intros st rest.
   - exists st. repeat split.
-  - destruct (IH (with_test st t) rest) as [st' [Hg [Ho E]]].
-    exists st'. split; [exact Hg | split; [exact Ho|]].
-    cbn [flat_map]. rewrite <- !app_assoc, items_test, E. reflexivity.
+  - cbn [flat_map filter]. unfold sel_events at 1. destruct (selected fs t).
+    + destruct (IH (with_test st t) rest) as [st' [Hg [Ho E]]].
+      exists st'. split; [exact Hg | split; [exact Ho|]].
+      cbn [flat_map]. rewrite <- !app_assoc, items_test, E. reflexivity.
+    + cbn [app]. apply IH.
 Qed.
 
 Definition seg_items (g : list test) : list item :=
-  IMsg (named L_testSuiteStarted (group_name g)) :: flat_map test_items g ++ [IMsg (named L_testSuiteFinished (group_name g))].
+  IMsg (named L_testSuiteStarted (group_name g)) :: flat_map test_items (filter (selected fs) g)
+  ++ [IMsg (named L_testSuiteFinished (group_name g))].
 
-Lemma items_seg g st rest : g <> [] -> exists st', itemsR st (seg_events g ++ rest) = seg_items g ++ itemsR st' rest.
+Lemma items_seg g st rest : g <> [] -> exists st', itemsR st (seg_events fs g ++ rest) = seg_items g ++ itemsR st' rest.
 Proof.
   intro Hne. destruct g as [|t g]; [contradiction|].
   unfold seg_events, seg_items. cbn [group_name].
@@ -125,13 +129,13 @@ Proof.
 Qed.
 
 Lemma items_segs gs : forall st rest, Forall (fun g => g <> []) gs ->
-  exists st', itemsR st (flat_map seg_events gs ++ rest) = flat_map seg_items gs ++ itemsR st' rest.
+  exists st', itemsR st (flat_map (seg_events fs) gs ++ rest) = flat_map seg_items gs ++ itemsR st' rest.
 Proof.
   induction gs as [|g gs IH]; intros st rest Hne.
   - exists st. reflexivity.
   - inversion Hne as [|? ? Hg Hgs]; subst.
     cbn [flat_map]. rewrite <- !app_assoc.
-    destruct (items_seg g st (flat_map seg_events gs ++ rest) Hg) as [st1 E1]. rewrite E1.
+    destruct (items_seg g st (flat_map (seg_events fs) gs ++ rest) Hg) as [st1 E1]. rewrite E1.
     destruct (IH st1 rest Hgs) as [st2 E2]. rewrite E2. exists st2. rewrite <- app_assoc. reflexivity.
 Qed.
 
@@ -172,10 +176,15 @@ Proof.
   induction g as [|t g IH]; [reflexivity|]. cbn [forallb flat_map]. intro H. apply andb_true_iff in H. destruct H as [Ht Hg].
   rewrite forallb_app, (test_items_ok t Ht), (IH Hg). reflexivity.
 Qed.
+Lemma forallb_filter {A} (P Q : A -> bool) l : forallb P l = true -> forallb P (filter Q l) = true.
+Proof.
+  induction l as [|a l IH]; [reflexivity|]. cbn [forallb filter]. intro H. apply andb_true_iff in H. destruct H as [Ha Hl].
+  destruct (Q a); [cbn [forallb]; rewrite Ha; apply IH; exact Hl | apply IH; exact Hl].
+Qed.
 Lemma seg_items_ok g : forallb noprint g = true -> forallb item_ok (seg_items g) = true.
 Proof.
   intro H. unfold seg_items. cbn [forallb item_ok]. rewrite named_ok_sstarted. cbn [andb].
-  rewrite forallb_app, (tests_items_ok g H). cbn [forallb item_ok]. rewrite named_ok_sfinished. reflexivity.
+  rewrite forallb_app, (tests_items_ok _ (forallb_filter noprint (selected fs) g H)). cbn [forallb item_ok]. rewrite named_ok_sfinished. reflexivity.
 Qed.
 Lemma segs_items_ok gs : Forall (fun g => g <> [] /\ forallb noprint g = true) gs -> forallb item_ok (flat_map seg_items gs) = true.
 Proof.
@@ -210,15 +219,15 @@ Proof.
 Qed.
 Lemma msgs_tests g : msgs_of_items (flat_map test_items g) = flat_map (test_msgs dur) g.
 Proof. induction g as [|t g IH]; [reflexivity|]. cbn [flat_map]. rewrite msgs_of_items_app, msgs_test, IH. reflexivity. Qed.
-Lemma msgs_seg g : msgs_of_items (seg_items g) = suite_msgs dur g.
+Lemma msgs_seg g : msgs_of_items (seg_items g) = suite_msgs dur fs g.
 Proof. unfold seg_items, suite_msgs. cbn [msgs_of_items]. rewrite msgs_of_items_app, msgs_tests. cbn [msgs_of_items]. rewrite !erase_named. reflexivity. Qed.
-Lemma msgs_segs gs : msgs_of_items (flat_map seg_items gs) = flat_map (suite_msgs dur) gs.
+Lemma msgs_segs gs : msgs_of_items (flat_map seg_items gs) = flat_map (suite_msgs dur fs) gs.
 Proof. induction gs as [|g gs IH]; [reflexivity|]. cbn [flat_map]. rewrite msgs_of_items_app, msgs_seg, IH. reflexivity. Qed.
 
 (* ---- the stream of a whole run *)
-Lemma run_items ts : tc_items Esc true dur tc_init (events_of ts) = flat_map seg_items (segments ts).
+Lemma run_items ts : tc_items Esc true dur tc_init (events_sel fs ts) = flat_map seg_items (segments ts).
 Proof.
-  unfold events_of. rewrite reg_loop_segments.
+  unfold events_sel. rewrite reg_loop_segments.
   assert (Hne : Forall (fun g : list test => g <> []) (segments ts)).
   { assert (Ht : forallb (fun _ : test => true) ts = true) by (clear; induction ts; cbn; auto).
     pose proof (segments_forall (fun _ => true) ts Ht) as H. eapply Forall_impl; [|exact H]. intros g [Hg _]. exact Hg. }
@@ -227,7 +236,7 @@ Proof.
 Qed.
 
 Lemma stream ts trailer : forallb noprint ts = true -> no_hash trailer = true ->
-  tc_parse (render_tc dur ts ++ trailer) = Some (messages_of dur ts).
+  tc_parse (render_tc dur fs ts ++ trailer) = Some (messages_of dur fs ts).
 Proof.
   intros Hp Ht. unfold render_tc, render_with, messages_of. rewrite run_items.
   rewrite parse_items; [|apply segs_items_ok, segments_forall, Hp|exact Ht].
@@ -238,12 +247,13 @@ End WriterFacts.
 (* ================= the messages of a run against the property ================= *)
 Section SpecFacts.
 Variable dur : N.
+Variable fs : list bytes.
 
 (* ---- balance *)
-Lemma bal_failures s t fs : forall r,
-  balanced_go (Some s) (Some (t_name t)) (map (failure_msg t) fs ++ r) = balanced_go (Some s) (Some (t_name t)) r.
+Lemma bal_failures s t fl : forall r,
+  balanced_go (Some s) (Some (t_name t)) (map (failure_msg t) fl ++ r) = balanced_go (Some s) (Some (t_name t)) r.
 Proof.
-  induction fs as [|[[f l] m] fs IH]; intro r; [reflexivity|].
+  induction fl as [|[[f l] m] fl IH]; intro r; [reflexivity|].
   cbn [map app]. unfold failure_msg at 1. cbn. rewrite bytes_eqb_refl. cbn. apply IH.
 Qed.
 Lemma bal_test s t r : balanced_go (Some s) None (test_msgs dur t ++ r) = balanced_go (Some s) None r.
@@ -260,13 +270,13 @@ Lemma bal_tests s g : forall r, balanced_go (Some s) None (flat_map (test_msgs d
 Proof.
   induction g as [|t g IH]; intro r; [reflexivity|]. cbn [flat_map]. rewrite <- app_assoc, bal_test. apply IH.
 Qed.
-Lemma bal_suite g r : balanced_go None None (suite_msgs dur g ++ r) = balanced_go None None r.
+Lemma bal_suite g r : balanced_go None None (suite_msgs dur fs g ++ r) = balanced_go None None r.
 Proof.
   unfold suite_msgs. cbn [app].
   change (balanced_go None None (mk_named L_testSuiteStarted (group_name g) :: ?x)) with (balanced_go (Some (group_name g)) None x).
   rewrite <- app_assoc, bal_tests. cbn. rewrite bytes_eqb_refl. reflexivity.
 Qed.
-Lemma balanced_messages ts : balanced (messages_of dur ts) = true.
+Lemma balanced_messages ts : balanced (messages_of dur fs ts) = true.
 Proof.
   unfold balanced, messages_of. induction (segments ts) as [|g gs IH]; [reflexivity|].
   cbn [flat_map]. rewrite bal_suite. exact IH.
@@ -298,9 +308,9 @@ Proof.
     by (repeat (rewrite <- app_assoc || rewrite <- app_comm_cons); reflexivity).
   apply contains_mid.
 Qed.
-Lemma take_failures_msgs t fs : forall r, take_failures t fs (map (failure_msg t) fs ++ r) = Some r.
+Lemma take_failures_msgs t fl : forall r, take_failures t fl (map (failure_msg t) fl ++ r) = Some r.
 Proof.
-  induction fs as [|f fs IH]; intro r; [reflexivity|].
+  induction fl as [|f fl IH]; intro r; [reflexivity|].
   cbn [map app take_failures]. rewrite failure_ok_msg. apply IH.
 Qed.
 Lemma attr_is_named k n : attr_is L_name (mk_named k n) n = true.
@@ -324,19 +334,19 @@ Proof.
   induction g as [|t g IH]; intro r; [reflexivity|].
   cbn [flat_map take_tests]. rewrite <- app_assoc, take_test_msgs. apply IH.
 Qed.
-Lemma take_suite_msgs g r : take_suite g (suite_msgs dur g ++ r) = Some r.
+Lemma take_suite_msgs g r : take_suite fs g (suite_msgs dur fs g ++ r) = Some r.
 Proof.
   unfold suite_msgs, take_suite. cbn [app].
   change (is_msg L_testSuiteStarted (mk_named L_testSuiteStarted (group_name g))) with true. rewrite attr_is_named. cbn [andb].
   rewrite <- app_assoc, take_tests_msgs. cbn [app].
   change (is_msg L_testSuiteFinished (mk_named L_testSuiteFinished (group_name g))) with true. rewrite attr_is_named. reflexivity.
 Qed.
-Lemma faithful_messages ts : faithful (segments ts) (messages_of dur ts) = true.
+Lemma faithful_messages ts : faithful fs (segments ts) (messages_of dur fs ts) = true.
 Proof.
   unfold messages_of. induction (segments ts) as [|g gs IH]; [reflexivity|].
   cbn [flat_map faithful]. rewrite take_suite_msgs. exact IH.
 Qed.
-Lemma spec_messages ts : spec_msgs ts (messages_of dur ts) = true.
+Lemma spec_messages ts : spec_msgs fs ts (messages_of dur fs ts) = true.
 Proof. unfold spec_msgs. rewrite balanced_messages, faithful_messages. reflexivity. Qed.
 End SpecFacts.
 
@@ -351,7 +361,7 @@ Qed.
 
 Lemma run_meets_spec_text s trailer : valid s = true -> no_hash trailer = true -> spec s (run s ++ trailer) = true.
 Proof.
-  intros Hv Ht. unfold spec, run. rewrite (stream (s_dur s) (s_tests s) trailer (valid_noprint s Hv) Ht). apply spec_messages.
+  intros Hv Ht. unfold spec, run. rewrite (stream (s_dur s) (s_filters s) (s_tests s) trailer (valid_noprint s Hv) Ht). apply spec_messages.
 Qed.
 Lemma run_meets_spec s : valid s = true -> spec s (run s) = true.
 Proof. intro Hv. rewrite <- (app_nil_r (run s)). apply run_meets_spec_text; [exact Hv | reflexivity]. Qed.
@@ -359,13 +369,13 @@ Proof. intro Hv. rewrite <- (app_nil_r (run s)). apply run_meets_spec_text; [exa
 (* ================= the code before the two repairs of D15 ================= *)
 (* (1) a failure reported from another file: the test's own path went into the message value unescaped *)
 Definition old_path_witness : scenario :=
-  {| s_dur := 0; s_tests := [ {| t_group := B "G"%string; t_name := B "t"%string; t_file := B "it's.cpp"%string; t_line := 10; t_ignored := false;
+  {| s_dur := 0; s_filters := []; s_tests := [ {| t_group := B "G"%string; t_name := B "t"%string; t_file := B "it's.cpp"%string; t_line := 10; t_ignored := false;
                                  t_body := [SFail (B "helper.cpp"%string) 3 (B "boom"%string)] |} ] |}.
 Lemma run_old_path_refuted : ~ (forall s, valid s = true -> spec s (run_old_path s) = true).
 Proof. intro H. specialize (H old_path_witness eq_refl). vm_compute in H. discriminate H. Qed.
 (* (2) a group with the empty name: suite started, never finished *)
 Definition old_group_witness : scenario :=
-  {| s_dur := 0; s_tests := [ {| t_group := []; t_name := B "t"%string; t_file := B "a.cpp"%string; t_line := 10; t_ignored := false; t_body := [] |} ] |}.
+  {| s_dur := 0; s_filters := []; s_tests := [ {| t_group := []; t_name := B "t"%string; t_file := B "a.cpp"%string; t_line := 10; t_ignored := false; t_body := [] |} ] |}.
 Lemma run_old_group_refuted : ~ (forall s, valid s = true -> spec s (run_old_group s) = true).
 Proof. intro H. specialize (H old_group_witness eq_refl). vm_compute in H. discriminate H. Qed.
 (* the old writer's stream for (2) does parse; it is the balance that fails *)
@@ -385,16 +395,19 @@ Definition ex_test2 : test :=
   {| t_group := (B "G'1"%string); t_name := (B "ign"%string); t_file := (B "a.cpp"%string); t_line := 20; t_ignored := true; t_body := [] |}.
 Definition ex_test3 : test :=
   {| t_group := []; t_name := []; t_file := (B "a.cpp"%string); t_line := 30; t_ignored := false; t_body := [] |}.
-Definition example_run : scenario := {| s_dur := 42; s_tests := [ex_test1; ex_test2; ex_test3] |}.
+Definition ex_test4 : test :=
+  {| t_group := (B "H"%string); t_name := (B "filtered out"%string); t_file := (B "a.cpp"%string); t_line := 40; t_ignored := false; t_body := [] |}.
+Definition example_run : scenario :=
+  {| s_dur := 42; s_filters := [B "t[1]"%string; B "ign"%string; []]; s_tests := [ex_test1; ex_test2; ex_test3; ex_test4] |}.
 
 Lemma example_valid :
-  valid example_run = true /\ length (messages_of 42 (s_tests example_run)) = 14%nat /\ spec example_run (run example_run) = true
-  /\ tc_parse (run example_run) = Some (messages_of 42 (s_tests example_run)).
+  valid example_run = true /\ length (messages_of 42 (s_filters example_run) (s_tests example_run)) = 16%nat /\ spec example_run (run example_run) = true
+  /\ tc_parse (run example_run) = Some (messages_of 42 (s_filters example_run) (s_tests example_run)).
 Proof. vm_compute. repeat split; reflexivity. Qed.
 
 (* what spec = true says, spelled out *)
 Lemma spec_reads s o : spec s o = true <->
-  exists ms, tc_parse o = Some ms /\ balanced ms = true /\ faithful (segments (s_tests s)) ms = true.
+  exists ms, tc_parse o = Some ms /\ balanced ms = true /\ faithful (s_filters s) (segments (s_tests s)) ms = true.
 Proof.
   unfold spec, spec_msgs. split.
   - destruct (tc_parse o) as [ms|]; [|discriminate]. intro H. apply andb_true_iff in H. exists ms. tauto.
@@ -402,3 +415,12 @@ Proof.
 Qed.
 Lemma escape_roundtrip s : tc_unescape (tc_escape s) = Some s /\ no_raw_special (tc_escape s) = true.
 Proof. split; [apply unescape_escape | apply escape_no_raw_special]. Qed.
+
+(* without filters the loop is the one C16 uses *)
+Lemma reg_loop_nofilter gs ts : reg_loop_sel [] gs ts = reg_loop gs ts.
+Proof.
+  revert gs. induction ts as [|t rest IH]; intro gs; [reflexivity|].
+  cbn [reg_loop_sel reg_loop]. unfold sel_events. cbn [selected]. rewrite !IH. reflexivity.
+Qed.
+Lemma events_nofilter ts : events_sel [] ts = events_of ts.
+Proof. apply reg_loop_nofilter. Qed.
